@@ -59,18 +59,25 @@ class Evaluator(object):
         self.w = world
         self.sh = world.sh
         self.blocks = [{}]
-        self.fuel = [self.FUEL] if depth == 0 else None
+        self.fuel = [self.FUEL]
         self.callables = callables          # object with .invoke(kind, node, args, evaluator) for C15
         self.params = params or {}
         self.self_inst = self_inst
         self.depth = depth
         self.in_logical = 0
+        self.in_lazy_where = 0
+        self.derived_target = None
+        self.derived_value = None
 
     # -- variables -----------------------------------------------------------------------------------
     def lookup(self, name):
         for b in reversed(self.blocks):
             if name in b:
                 return b[name]
+        if self.callables is not None:
+            c = self.callables.named_constant(name)
+            if c is not NotImplemented:
+                return c
         raise Discard('read of undefined variable')
 
     def assign(self, name, value):
@@ -126,6 +133,9 @@ class Evaluator(object):
                 self.assign(va['variable_name'], val)
             elif va['t'] == 'FieldAccessNode':
                 inst = self.live(self.expr(va['handle']), 'attribute')
+                if self.derived_target is not None and inst is self.derived_target[0] and va['name'] == self.derived_target[1]:
+                    self.derived_value = val          # the body of a derived attribute assigns its own value
+                    return
                 name = self.sh._canon(inst.cls, va['name'])
                 if name in self.sh.schema.referentials(inst.cls):
                     raise Discard('write to a referential attribute')
@@ -179,7 +189,8 @@ class Evaluator(object):
         elif t in ('SelectFromNode', 'SelectFromWhereNode'):
             cands = self.sh.live(s['key_letter'])
             if t == 'SelectFromWhereNode':
-                cands = [r for r in cands if self.where(s['where_clause'], r)]
+                lazy = s['cardinality'].lower() != 'many'
+                cands = [r for r in cands if self.where(s['where_clause'], r, lazy)]
             self.assign(s['variable_name'], self._card(s['cardinality'], cands))
         elif t in ('SelectRelatedNode', 'SelectRelatedWhereNode'):
             h = self.expr(s['handle'])
@@ -201,7 +212,8 @@ class Evaluator(object):
                 except Rejected:
                     raise Discard('unknown navigation step')
             if t == 'SelectRelatedWhereNode':
-                recs = [r for r in recs if self.where(s['where_clause'], r)]
+                lazy = s['cardinality'].lower() != 'many'
+                recs = [r for r in recs if self.where(s['where_clause'], r, lazy)]
             card = s['cardinality'].lower()
             if card == 'one' and len(recs) > 1:
                 raise Discard('select one over a multi-valued chain')
@@ -266,11 +278,15 @@ class Evaluator(object):
             return out
         return recs[0] if recs else None
 
-    def where(self, clause, rec):
+    def where(self, clause, rec, lazy=False):
+        # how many candidates a 'select any/one ... where' examines is not fixed by the language: a call in
+        # such a clause could have effects a different number of times
         self.blocks.append({'selected': rec})
+        self.in_lazy_where += 1 if lazy else 0
         try:
             return self.truth(self.expr(clause))
         finally:
+            self.in_lazy_where -= 1 if lazy else 0
             self.blocks.pop()
 
     def truth(self, v):
@@ -304,10 +320,13 @@ class Evaluator(object):
             return self.params[e['variable_name']]
         if t == 'FieldAccessNode':
             inst = self.live(self.expr(e['handle']), 'attribute')
+            if self.derived_target is not None and inst is self.derived_target[0] and e['name'] == self.derived_target[1]:
+                return self.derived_value
             if self.callables is not None:
-                d = self.callables.derived(inst, e['name'], self)
-                if d is not NotImplemented:
-                    return d
+                if self.callables.is_derived(inst, e['name']):
+                    if self.in_logical or self.in_lazy_where:
+                        raise Discard('derived attribute read inside a lazily evaluated clause')
+                    return self.callables.derived(inst, e['name'], self)
             try:
                 v = self.sh.attr(inst, e['name'])
             except KeyError:
@@ -357,6 +376,8 @@ class Evaluator(object):
                 raise Discard('no callables in this context')
             if self.in_logical:
                 raise Discard('call inside a logical operand')
+            if self.in_lazy_where:
+                raise Discard('call inside the where clause of a select any/one')
             args = {}
             for p in e['parameter_list']['children']:
                 args[p['name']] = self.expr(p['expression'])
